@@ -75,6 +75,10 @@ POOL = [
     ("s_garbage", "synerr", "token A; start s; s: A; $$$"),
     ("s_no_semi", "synerr", "token A B; start s; s: A B"),
     # semantic errors (coded)
+    # an error followed by a warning, and the other way round (the exit status must not depend on
+    # which diagnostic happens to be the last one)
+    ("e_error_then_warning", "semerr", "token A B Unused; start s; s: (A | A) B;"),
+    ("e_warning_then_error", "semerr", "token A B; start s; s: t B; t: ; u: A | A;"),
     ("e_undef_rule", "semerr", "token A B; start s; s: A t;"),
     ("e_ll1_alt", "semerr", "token A B; start s; s: A B | A;"),
     ("e_no_start", "semerr", "token A B; s: A B;"),
@@ -88,7 +92,7 @@ POOL = [
     ("u_directory", "unreadable", "directory"),
     ("u_not_utf8", "unreadable", "not_utf8"),
 ]
-QUICK_PER_CLASS = 3
+QUICK_PER_CLASS = 4
 EXAMPLE_FILES = ["examples/json/src/json.llw", "examples/calc/src/calc.llw", "examples/toml/src/toml.llw"]
 
 ERR_RE = re.compile(r"(?m)(^|: )error(\[E\d{3}\])?: ")
